@@ -164,3 +164,97 @@ class _UnknownKey:
 
     def exceptional(exc):
         return is_instance_of(exc, InvalidConfigKey)
+
+
+# =========================================================================================
+#  YAML spec -> list of configuration dictionaries
+# =========================================================================================
+from pyvc.spec import ghost_set, yaml_file                         # noqa: E402
+
+VARS = {"VENDOR_A": b"\x00\x00\x28\xaf", "APP_A": b"\x01\x00\x00\x23", "APP_B": b"\x01\x00\x00\x30"}
+
+
+def _entry(transport, napps):
+    apps = [T.DictOf(vendor_id=T.Const("VENDOR_A"), app_id=T.OneOf(T.Const("APP_A"), T.Const("APP_B")))
+            for _ in range(napps)]
+    d = dict(mode=T.Str(), applications=T.ListOf(*apps),
+             local=T.DictOf(hostname=T.Str(), realm=T.Str(), ip_address=T.Str(), port=T.Int()),
+             peer=T.DictOf(hostname=T.Str(), realm=T.Str(), ip_address=T.Str(), port=T.Int()),
+             watchdog_timeout=T.Int())
+    if transport == "given":
+        d["transport_type"] = T.Str(minlen=1)
+    elif transport == "none":
+        d["transport_type"] = T.NoneS
+    return T.DictOf(**d)
+
+
+def load_yaml(doc):
+    ghost_set("yaml_doc", doc)
+    return IU._convert_file_to_config(yaml_file(doc), VARS)
+
+
+def expected_transport(spec):
+    if "transport_type" in spec and spec["transport_type"]:
+        return spec["transport_type"].upper()
+    return "TCP"
+
+
+def entry_matches(cfg, spec, names):
+    ok = (cfg["MODE"] == spec["mode"].upper() and cfg["TRANSPORT_TYPE"] == expected_transport(spec)
+          and cfg["LOCAL_NODE_HOSTNAME"] == spec["local"]["hostname"]
+          and cfg["LOCAL_NODE_REALM"] == spec["local"]["realm"]
+          and cfg["LOCAL_NODE_IP_ADDRESS"] == spec["local"]["ip_address"]
+          and cfg["LOCAL_NODE_PORT"] == spec["local"]["port"]
+          and cfg["PEER_NODE_HOSTNAME"] == spec["peer"]["hostname"]
+          and cfg["PEER_NODE_REALM"] == spec["peer"]["realm"]
+          and cfg["PEER_NODE_IP_ADDRESS"] == spec["peer"]["ip_address"]
+          and cfg["PEER_NODE_PORT"] == spec["peer"]["port"]
+          and cfg["WATCHDOG_TIMEOUT"] == spec["watchdog_timeout"]
+          and len(cfg["APPLICATIONS"]) == len(names))
+    i = 0
+    for nm in names:
+        if ok:
+            app = cfg["APPLICATIONS"][i]
+            ok = ok and app["vendor_id"] == VARS[nm[0]] and app["app_id"] == VARS[nm[1]]
+        i = i + 1
+    return ok
+
+
+def app_names(spec):
+    # constant NAMES as they stand in the document before resolution (the loader rewrites in place)
+    return [(a["vendor_id"], a["app_id"]) for a in spec["applications"]]
+
+
+def remember_names(doc):
+    return ghost_set("names", [app_names(sp) for sp in doc["spec"]])
+
+
+def _yaml_contract(name, entries):
+    @contract("bromelia._internal_utils._convert_file_to_config", prop="C19", name="yaml:" + name)
+    class _Y:
+        """one configuration per spec entry, in order, each built from ITS entry alone: mode and
+        transport upper-cased, TCP when the entry names no transport, application constants resolved"""
+        args = {"doc": T.DictOf(api_version=T.Const("v1"), name=T.Const("x"), spec=T.ListOf(*entries))}
+        call = load_yaml
+        setup_spec = remember_names
+        bounded = "YAML spec lists of %d entries (entry contents symbolic); list lengths 1..3 are covered" % len(entries)
+
+        def ensures_one_per_entry_in_order(doc, result):
+            names = ghost_get("names")
+            ok = len(result) == len(doc["spec"])
+            i = 0
+            for sp in doc["spec"]:
+                ok = ok and entry_matches(result[i], sp, names[i])
+                i = i + 1
+            return ok
+
+        def exceptional(exc):
+            return False
+    return _Y
+
+
+_yaml_contract("1-default", [_entry("absent", 1)])
+_yaml_contract("1-given", [_entry("given", 0)])
+_yaml_contract("2-given-then-absent", [_entry("given", 1), _entry("absent", 0)])
+_yaml_contract("2-none-then-given", [_entry("none", 2), _entry("given", 1)])
+_yaml_contract("3-mixed", [_entry("given", 1), _entry("absent", 0), _entry("none", 1)])
